@@ -16,7 +16,7 @@ import (
 func startMosnH1(tmp string, upAddr string) string {
 	laddr := e2e.FreeAddr()
 	clusters := e2e.BuildClusters([]e2e.ClusterSpec{{Name: "uph", Hosts: []string{upAddr}}})
-	routes := []e2e.RouteSpec{{Prefix: "/", Cluster: "uph"}}
+	routes := []e2e.RouteSpec{{Prefix: "/r/", Cluster: "uph", RetryOn: true, NumRetries: 3}, {Prefix: "/", Cluster: "uph"}}
 	lst := e2e.BuildListener(e2e.ListenerSpec{Name: "c02h", Addr: laddr, Downstream: "Http1", Upstream: "Http1", Routes: routes})
 	e2e.StartMosn(e2e.BuildConfig([]v2.Listener{lst}, clusters, e2e.ScratchLog(tmp)))
 	vh.Must(e2e.WaitListen(laddr, 10*time.Second), "mosn listener")
@@ -60,9 +60,14 @@ func runH1(tr *vh.Trace, laddr, name string, rng *rand.Rand, nclients, per int) 
 					hdr["X-Beh"] = fmt.Sprintf("slow:%d", 110+r.Intn(60))
 					hdr["x-mosn-global-timeout"] = fmt.Sprint(40 + r.Intn(30))
 				}
+				uri := "/x?tok=" + tok
+				if r.Intn(4) == 0 { // retry_on route: the first attempt is answered 503 with a body, the retry is answered or times out
+					uri = "/r/x?tok=" + tok
+					hdr["X-Beh"] = "err" + hdr["X-Beh"]
+				}
 				tr.Emit(vh.Ev{"ev": "csend", "conn": cname, "dsid": 0, "tok": tok, "short": short, "probe": false})
 				atomic.AddInt64(&total, 1)
-				if err := cl.Send("GET", "/x?tok="+tok, hdr, ""); err != nil {
+				if err := cl.Send("GET", uri, hdr, ""); err != nil {
 					atomic.AddInt64(&noreply, 1)
 					cl.Close()
 					cl = nil
@@ -81,7 +86,7 @@ func runH1(tr *vh.Trace, laddr, name string, rng *rand.Rand, nclients, per int) 
 					continue
 				}
 				tr.Emit(vh.Ev{"ev": "crecv", "conn": cname, "id": 0, "ok": o.Status == 200, "status": o.Status,
-					"htok": o.Header.Get("X-Token"), "btok": o.Body})
+					"htok": o.Header.Get("X-Up-Token"), "btok": o.Body})
 				if o.Status != 200 { // the proxy may close the downstream connection after an error reply
 					atomic.AddInt64(&errs, 1)
 					cl.Close()
